@@ -31,7 +31,7 @@ func init() {
 			"the client-form frame k and must have seen a Flush after it; on the request side an instrumented body records which client message each read touches: bytes of message j may only be requested once the handler has obtained " +
 			"messages 0..j-1 (no look-ahead). (2) real HTTP/2 (h2c) strict ping-pong over loopback: client and handler alternate for R rounds, each sending its next message only after receiving the peer's previous one; every round must complete " +
 			"(bounded progress; a stall is confirmed by an isolated re-run). Cases: client forms gRPC, gRPC-Web, Connect streaming x targets Connect streaming, gRPC, gRPC-Web x same/different codec x same/different compression " +
-			"(all four reader/writer adapters) x rounds {1,2,10,100} x sizes {0,1,1 KiB,70 KiB} x stream shapes (server-stream, client-stream, bidi). non-trivial = at least 2 rounds; distinct by (leg, form, target, codecs, compression, rounds, size, shape)",
+			"(all four reader/writer adapters) x rounds {1,2,10,100} x sizes {0,1,1 KiB,70 KiB} plus zero-length payloads x handler reading exact sizes or through a 32 KiB buffer x stream shapes (server-stream, client-stream, bidi). non-trivial = at least 2 rounds; distinct by (leg, form, target, codecs, compression, rounds, size, shape)",
 		Assume: []string{"Connect-unary and REST clients are a control group only: they are not required to stream", "wall-clock is used only as a stall detector (30 s per exchange, confirmed in isolation), never as a latency verdict"},
 		N:      func(t string) int { return tierN(t, 1200, 20000) },
 		Run:    runC16,
